@@ -17,7 +17,10 @@ MANIFEST = {
             'simulated devices are executed by the real compiler and VM; every '
             'device request, delay request and output value is compared, in '
             'order, with an independent interpreter written from the manual. '
-            'Sampling of the program space, not enumeration.',
+            'Sampling of the program space, not enumeration.'
+            ' One program in forty writes one triple of numbers to the co'
+            'lour registers under alternating unit modes with a set after'
+            ' each.',
     'note': 'Trusted: reference interpreter, simulated lifxlan devices, '
             'recording clock/output. Per-member order inside one group action '
             'and a delay in front of `set default`/`get` are not constrained.',
